@@ -8,7 +8,8 @@ import (
 )
 
 func init() {
-	mirror("modfile.modulepath", "modfile.autoquote", "modfile.isdirpath", "modfile.lex", "modfile.format", "modfile.lineless", "modfile.checkcanonical", "modfile.parsetree")
+	mirror("modfile.modulepath", "modfile.autoquote", "modfile.isdirpath", "modfile.lex", "modfile.format", "modfile.lineless", "modfile.checkcanonical", "modfile.parsetree",
+		"modfile.parse", "modfile.parselax", "modfile.parsework")
 	// token level: the lexer alone (hook LexTokens, build tag verif), on every input that is parsed
 	impls["modfile.lex"] = func(a []string) string {
 		toks, comments, ok := modfile.LexTokens([]byte(unhx(a[0])))
